@@ -30,7 +30,7 @@ var Dims = []Dim{
 	{"DigAlgs", []string{"1n", "1x", "2sn", "2un", "2sx", "2ux"}},
 	{"EContent", []string{"data", "absent", "spc"}},
 	{"Certs", []string{"leaf", "none", "3s", "3u", "3x"}},
-	{"CRLs", []string{"no", "yes"}},
+	{"CRLs", []string{"no", "yes", "gentime", "critfalse"}},
 	{"Signers", []string{"1", "2s", "2u"}},
 	{"SID", []string{"ias", "ski"}},
 	{"Attrs", []string{"sorted", "absent", "unsorted", "dup", "gentime", "frac"}},
@@ -54,7 +54,7 @@ type Params struct {
 	DigAlgs  string // digestAlgorithms: count 1|2, s=DER-sorted u=unsorted, n=NULL parameters x=parameters absent
 	EContent string // data = OCTET STRING under id-data; absent = detached; spc = SEQUENCE under SPC_INDIRECT_DATA (non-octet ANY); ctl = SEQUENCE under szOID_CTL; tst = OCTET STRING TSTInfo
 	Certs    string // leaf = signer leaves; none = field absent; 3s/3u = leaves+intermediate+root DER-sorted / reverse; 3x = 3u plus an other[3] CertificateChoices member that is not an X.509 certificate
-	CRLs     string // no | yes (one CRL issued by the fixture root)
+	CRLs     string // no | yes (one CRL issued by the fixture root) | gentime | critfalse (the same list in encodings Go would not choose)
 	Signers  string // 1 | 2s | 2u (second signer rsaB; SET DER-sorted / reverse)
 	SID      string // ias = issuerAndSerialNumber (v1) ; ski = [0] subjectKeyIdentifier (SignerInfo v3)
 	Attrs    string // sorted | absent | unsorted (reverse DER order) | dup (two extra attributes of the same type) | gentime | frac (GeneralizedTime with fraction)
@@ -603,6 +603,10 @@ func (g *Gen) Build(p Params) *Built {
 	}
 	if p.CRLs == "yes" {
 		sd = append(sd, Ctx(1, true, g.F.CRL))
+	} else if p.CRLs == "gentime" && g.F.CRLGenTime != nil {
+		sd = append(sd, Ctx(1, true, g.F.CRLGenTime))
+	} else if p.CRLs == "critfalse" && g.F.CRLCritFalse != nil {
+		sd = append(sd, Ctx(1, true, g.F.CRLCritFalse))
 	} else if p.Quirk == "empty-crls" {
 		sd = append(sd, Ctx(1, true))
 	}
